@@ -9,6 +9,7 @@ MCFam       == [i \in PeerIPs |-> IF i \in {"X", "Y"} THEN 6 ELSE 4]
 MCListenFam == [c \in Clients |-> IF c = "c6" THEN 6 ELSE 4]
 MCDenied    == {<<"c1", "B">>}
 MCNoDenied  == {}
+MCDeniedV6  == {<<"c6", "Y">>, <<"c1", "A">>}      \* the operator's handler refuses an IPv6 peer (and an IPv4 one)
 MCPermSeqs1 == {<<i>> : i \in PeerIPs}
 MCPermSeqs2 == MCPermSeqs1 \cup {<<"A", "B">>, <<"B", "A">>, <<"A", "X">>}
 MCLifeAbsent  == {-1}
